@@ -302,6 +302,8 @@ def run(case):
                 world.advance(20 * rt)
             else:
                 world.advance((len(cfg["lat"]) + 4.5) * (rt + 0.2) + 1.0)
+                # the re-dialled link is silent from its first moment: it is supervised like the first one
+                world.advance(3.5 * rt + 1.5)
             # ---------------------------------------------------------------- oracle
             _oracle(world, cfg, violations, probes, losses, stop_called, stop_returned, user_disconnected, gateway)
         except _Done:
@@ -490,6 +492,14 @@ def _oracle(world, cfg, violations, probes, losses, stop_called, stop_returned, 
                 if not 2 * rt - 1e-6 <= delay <= upper:
                     violations.append(_vio("watchdog-timing", {"t0": round(t0, 3), "closed_at": round(first.closed_at, 3), "delay": round(delay, 3), "rt": rt},
                                            flavour=flavour, sign="late" if delay > upper else "early"))
+                upper2 = 3.0 * rt + 0.5 if is_async else 2.5 * rt + 0.5
+                for later in conns[1:]:
+                    # a link established after the loss and silent throughout: dropped as well (if the run lasted long enough to tell)
+                    if later.closed_at is None and not [a for a in dev.answers if a[2] == later.conn_id] and sim.now - later.opened_at > upper2 + 0.3 and not violations:
+                        violations.append(_vio("silent-link-not-dropped", {"t0": round(later.opened_at, 3), "rt": rt, "connection": later.conn_id, "now": round(sim.now, 3),
+                                                                           "probes": [round(x, 3) for x in by_conn.get(later.conn_id, [])][:8]}, flavour=flavour, which="re-dialled"))
+                    elif later.closed_at is not None:
+                        probes["silent_redialled_link_dropped"] = 1
                 redial = [a for a in attempts if first.closed_at - 0.05 <= a[0] <= first.closed_at + slack]
                 if not redial:
                     violations.append(_vio("no-reconnect-after-loss", {"loss": "watchdog", "closed_at": first.closed_at,
